@@ -659,7 +659,50 @@ func normBytes(t *sx.T) *sx.T {
 	return t
 }
 
+// opaqueApp is the application of the uninterpreted function standing for an opaque pure function.
+func opaqueApp(d *PureDecl, args []*sx.T) *sx.T {
+	var ps []string
+	for _, p := range d.Params {
+		ps = append(ps, parseType(p.Type).Sort())
+	}
+	Declare("uf:op_"+d.Name, fmt.Sprintf("(declare-fun op_%s (%s) %s)", d.Name, strings.Join(ps, " "), parseType(d.Result).Sort()))
+	if len(args) == 0 {
+		return sx.App("op_" + d.Name)
+	}
+	return sx.App("op_"+d.Name, args...)
+}
+
+// RevealAxiom is the defining axiom of an opaque pure function: forall params :: op_f(params) == body.
+func (e *Env) RevealAxiom(d *PureDecl) *sx.T {
+	c := &Env{Vars: map[string]TV{}, File: e.File, Structs: e.Structs, Lists: e.Lists, uniq: e.uniq, Lookup: e.Lookup}
+	var binders []*sx.T
+	var args []*sx.T
+	for _, p := range d.Params {
+		*e.uniq++
+		name := fmt.Sprintf("%s?%d", p.Name, *e.uniq)
+		ty := parseType(p.Type)
+		c.Vars[p.Name] = TV{T: sx.Atom(name), Ty: ty}
+		binders = append(binders, sx.List(sx.Atom(name), sx.Atom(ty.Sort())))
+		args = append(args, sx.Atom(name))
+	}
+	body := c.Tr(d.Body)
+	rt := parseType(d.Result)
+	bt := body.T
+	if body.Ty.K != rt.K {
+		bt = coerce(body, rt)
+	}
+	app := opaqueApp(d, args)
+	return sx.List(sx.Atom("forall"), sx.List(binders...), sx.List(sx.Atom("!"), sx.App("=", app, bt), sx.Atom(":pattern"), sx.List(app)))
+}
+
 func (e *Env) callPure(d *PureDecl, args []TV) TV {
+	if d.Opaque {
+		ts := make([]*sx.T, len(args))
+		for i, p := range d.Params {
+			ts[i] = coerce(args[i], parseType(p.Type))
+		}
+		return TV{T: opaqueApp(d, ts), Ty: parseType(d.Result)}
+	}
 	c := &Env{Vars: map[string]TV{}, Old: nil, File: e.File, Structs: e.Structs, Lists: e.Lists, uniq: e.uniq, Lookup: e.Lookup}
 	for i, p := range d.Params {
 		pt := parseType(p.Type)
@@ -727,6 +770,18 @@ func (e *Env) call(x *ECall) TV {
 			return TV{T: sx.App(v.Ty.Name+"_len", v.T), Ty: I}
 		}
 		return TV{T: sx.App("str.len", toBytes(v)), Ty: I}
+	case x.Fn == "samesnap":
+		// the Find snapshots of two stores under one prefix coincide (count, keys in order, positions)
+		DeclareSnapshots()
+		a, b, p := e.Tr(x.Args[0]).T, e.Tr(x.Args[1]).T, toBytes(e.Tr(x.Args[2]))
+		*e.uniq++
+		j := sx.Atom(fmt.Sprintf("j?%d", *e.uniq))
+		k := sx.Atom(fmt.Sprintf("k?%d", *e.uniq))
+		qk := sx.List(sx.Atom("forall"), sx.List(sx.List(j, sx.Atom("Int"))), sx.List(sx.Atom("!"),
+			sx.App("=", sx.App("skey", a, p, j), sx.App("skey", b, p, j)), sx.Atom(":pattern"), sx.List(sx.App("skey", a, p, j)), sx.Atom(":pattern"), sx.List(sx.App("skey", b, p, j))))
+		qi := sx.List(sx.Atom("forall"), sx.List(sx.List(k, sx.Atom("String"))), sx.List(sx.Atom("!"),
+			sx.App("=", sx.App("sidx", a, p, k), sx.App("sidx", b, p, k)), sx.Atom(":pattern"), sx.List(sx.App("sidx", a, p, k)), sx.Atom(":pattern"), sx.List(sx.App("sidx", b, p, k))))
+		return TV{T: sx.And(sx.App("=", sx.App("cnt", a, p), sx.App("cnt", b, p)), qk, qi), Ty: B}
 	case x.Fn == "skey":
 		DeclareSnapshots()
 		return TV{T: sx.App("skey", e.Tr(x.Args[0]).T, toBytes(e.Tr(x.Args[1])), e.Tr(x.Args[2]).T), Ty: Type{K: KBytes}}
@@ -812,7 +867,16 @@ func (e *Env) call(x *ECall) TV {
 	case x.Fn == "byte":
 		return TV{T: sx.App("str.from_code", e.Tr(x.Args[0]).T), Ty: Type{K: KBytes}}
 	case x.Fn == "isnil":
-		return TV{T: sx.App("isnull", e.Tr(x.Args[0]).T), Ty: B}
+		v := e.Tr(x.Args[0])
+		switch v.Ty.K {
+		case KList:
+			return TV{T: sx.App(v.Ty.Name+"_null", v.T), Ty: B}
+		case KAny:
+			return TV{T: sx.App("=", v.T, sx.Atom("AnyNull")), Ty: B}
+		case KBytes:
+			return TV{T: sx.Bool(false), Ty: B}
+		}
+		return TV{T: sx.App("isnull", v.T), Ty: B}
 	case x.Fn == "min" || x.Fn == "max":
 		a, b := e.Tr(x.Args[0]).T, e.Tr(x.Args[1]).T
 		op := "<="
